@@ -308,6 +308,8 @@ def scenarios(tier, seed, routine=None):
         if routine in ("dqn", "nature_dqn", "ddqn", "ddqn_per"):
             # scheduled exploration: epsilon 1 up to step 7, then 0
             scs.append(dict(base, label="ES", script=[(3, "term"), (2, "trunc"), (4, "term")], budget=16, start=0, eplimit=0, warm=3, eps_switch=7))
+            # the same schedule on a run that is continued from step 4: the schedule is indexed by the global step
+            scs.append(dict(base, label="ESR", script=[(3, "term"), (2, "trunc"), (4, "term")], budget=16, start=4, eplimit=0, warm=3, eps_switch=9))
     if tier == "thorough":
         scs += [
             dict(base, label="D", script=[(1, "term"), (1, "trunc"), (5, "term")], budget=24, start=2, eplimit=5, warm=7, cap=50),
